@@ -39,7 +39,7 @@ func c06Keywords() []namedVal {
 
 func c06Operators() []namedVal {
 	return []namedVal{{"Eq", stackage.Eq}, {"Ge", stackage.Ge}, {"ComparisonOperator(0)", stackage.ComparisonOperator(0)}, {"ComparisonOperator(9)", stackage.ComparisonOperator(9)},
-		{"nil", nil}, {"user(~=,ctx)", userOp{"~=", "ctx"}}, {"sliceOp(=~,ctx)", sliceOp{"=~", "ctx"}}, {"user(,ctx)", userOp{"", "ctx"}}, {"user(~=,)", userOp{"~=", ""}}}
+		{"nil", nil}, {"user(~=,ctx)", userOp{"~=", "ctx"}}, {"sliceOp(=~,ctx)", sliceOp{"=~", "ctx"}}, {"(*ComparisonOperator)(nil)", (*stackage.ComparisonOperator)(nil)}, {"user(,ctx)", userOp{"", "ctx"}}, {"user(~=,)", userOp{"~=", ""}}}
 }
 
 // expression constructors (fresh instance per use where identity matters)
@@ -75,6 +75,9 @@ func acceptOp(v any) (stackage.Operator, bool) {
 		return nil, false
 	}
 	op := v.(stackage.Operator)
+	if rv := reflect.ValueOf(v); rv.Kind() == reflect.Ptr && rv.IsNil() {
+		return nil, false // a typed nil pointer is no operator
+	}
 	if _, builtin := op.(stackage.ComparisonOperator); builtin {
 		return op, true // every ComparisonOperator value has a text (the six symbols or "<invalid_operator>") and a context
 	}
